@@ -118,10 +118,54 @@ func isExecAct(a Act) bool {
 }
 
 func prop(c *Case) string {
-	if c.Fam == "sandbox" {
+	if c.Fam == "sandbox" || c.Fam == "session" {
 		return "C12"
 	}
 	return "C13"
+}
+
+// modeClass names the output mode in signatures ("" for the default mode).
+func modeClass(c Cfg) string {
+	if c.OMode == "csv" || c.OMode == "tsv" {
+		return "-" + c.OMode + "-output"
+	}
+	return ""
+}
+
+// markedActs are the actions that have a statement (and a mark) of their own.
+func markedActs(c *Case) []Act {
+	var out []Act
+	for _, a := range c.Acts {
+		if a.Op != "finish" && a.Op != "operand" {
+			out = append(out, a)
+		}
+	}
+	return out
+}
+
+// failClass classifies a run of the failure family that succeeded although the writer failed.
+//   - plain writer: every write goes to the failing writer directly;
+//   - buffered writer whose failing write to the underlying writer happened while a print / printf statement that
+//     writes to standard output was being executed: that statement received the error ("write errors propagate out
+//     of print/printf");
+//   - buffered writer whose failing write happened at a flush point (fflush, the synchronising flush before a file
+//     or process is opened, the end of the run): class "buffered".
+func failClass(c *Case, o *Obs) string {
+	mc := modeClass(c.Cfg)
+	if c.Cfg.WKind == "plain" || c.Cfg.WKind == "" {
+		return "plain" + mc
+	}
+	if o.FailMark < 0 {
+		return c.Cfg.WKind + "-never-written" + mc
+	}
+	ma := markedActs(c)
+	toStdout := func(a Act) bool {
+		return a.Op == "print" && (a.Dest == "stdout" || (a.Dest == "file" && (a.Name == "-" || a.Name == "/dev/stdout")))
+	}
+	if o.FailMark < len(ma) && toStdout(ma[o.FailMark]) {
+		return c.Cfg.WKind + "-write-failed-in-print" + mc
+	}
+	return "buffered"
 }
 
 type diff struct {
@@ -134,6 +178,9 @@ func Compare(c *Case, o *Obs, variant string) *diff {
 	p := &c.Pred
 	P := prop(c)
 	fc := flagClass(c.Cfg)
+	if c.SigClass != "" {
+		fc = c.SigClass
+	}
 	if o.Panic != nil {
 		return &diff{P + "/" + opName(lastIO(c)) + "/panic/" + fc, fmt.Sprintf("panic: %v", o.Panic), nil, o.Stack}
 	}
@@ -148,13 +195,13 @@ func Compare(c *Case, o *Obs, variant string) *diff {
 			if gotErr {
 				what = "unexpected-error"
 			}
-			cls := "plain"
-			if c.Cfg.Buffered {
-				cls = "buffered"
+			cls := failClass(c, o)
+			if gotErr {
+				cls = c.Cfg.WKind + modeClass(c.Cfg)
 			}
 			return &diff{"C13/stdout-write-failure/" + what + "/" + cls,
-				fmt.Sprintf("standard output writer fails at byte %d (%s writer, ending %s): spec error=%v, real error=%v",
-					c.Cfg.FailAt, cls, ending(c), p.Err, o.Err), p.Err, fmt.Sprint(o.Err)}
+				fmt.Sprintf("standard output writer fails at byte %d (%s writer, output mode %s, ending %s; the first failing write happened after %d completed actions): spec error=%v, real error=%v",
+					c.Cfg.FailAt, c.Cfg.WKind, c.Cfg.OMode, ending(c), o.FailMark, p.Err, o.Err), p.Err, fmt.Sprint(o.Err)}
 		}
 		return nil
 	}
@@ -252,6 +299,9 @@ func Compare(c *Case, o *Obs, variant string) *diff {
 			what := pn.K + "-value"
 			if pn.K == "close" {
 				what = "close-status"
+				if closesNonReader(c, i) {
+					what = "close-status-of-command-that-does-not-read"
+				}
 			}
 			return &diff{P + "/" + pn.K + "/" + what + "/" + fc, fmt.Sprintf("result %d (%s) differs", i+1, pn.K), pn, on}
 		}
@@ -262,6 +312,11 @@ func Compare(c *Case, o *Obs, variant string) *diff {
 			if len(p.Stdout.Kids) > 0 {
 				cls = "with-children"
 			}
+			for _, k := range p.Stdout.Kids {
+				if k.Sys {
+					cls = "with-system-child-showing-file"
+				}
+			}
 			return &diff{P + "/stdout/content/" + cls + "/" + variant + "/" + ending(c), "standard output is not an allowed interleaving",
 				map[string]any{"program": p.Stdout.Prog.String(), "children": p.Stdout.Kids}, string(o.Stdout)}
 		}
@@ -270,6 +325,21 @@ func Compare(c *Case, o *Obs, variant string) *diff {
 		return &diff{P + "/print-to-stderr/content/" + fc, "error output differs", p.Serr.String(), string(o.Stderr)}
 	}
 	return nil
+}
+
+// closesNonReader: is the i-th observed result the close() of the command that never reads its input?
+func closesNonReader(c *Case, i int) bool {
+	k := 0
+	for _, a := range c.Acts {
+		switch a.Op {
+		case "close", "fflush", "system", "getline_file", "getline_cmd":
+			if k == i {
+				return a.Op == "close" && a.Name == "exit3"
+			}
+			k++
+		}
+	}
+	return false
 }
 
 func nontrivial(c *Case) bool {
@@ -288,10 +358,8 @@ func nontrivial(c *Case) bool {
 	return false
 }
 
-// replayTrace re-runs a recorded run that Trace_IOStreams rejected (the
-// verdict was TLC's): it reports whether the real code still shows the
-// rejected observation.
-func replayTrace(raw json.RawMessage) hx.Outcome {
+// casesOfTrace rebuilds the runs of a recorded session from its events.
+func casesOfTrace(raw json.RawMessage) (runs []RunIn, nev int, lastObs json.RawMessage, okk bool) {
 	var t struct {
 		Events []struct {
 			Ev  string `json:"ev"`
@@ -303,43 +371,146 @@ func replayTrace(raw json.RawMessage) hx.Outcome {
 		} `json:"events"`
 	}
 	if err := json.Unmarshal(raw, &t); err != nil {
-		return hx.Outcome{Skipped: true, Note: "bad trace case"}
+		return nil, 0, nil, false
 	}
-	c := &Case{Fam: "trace"}
 	for _, e := range t.Events {
 		switch {
 		case e.Ev != "step" || e.Act.Op == "end":
 		case e.Act.Op == "config" && e.Act.Cfg != nil:
-			c.Cfg = *e.Act.Cfg
+			runs = append(runs, RunIn{Cfg: *e.Act.Cfg})
 		default:
-			c.Acts = append(c.Acts, e.Act.Act)
+			if len(runs) == 0 {
+				runs = append(runs, RunIn{})
+			}
+			runs[len(runs)-1].Acts = append(runs[len(runs)-1].Acts, e.Act.Act)
 		}
 	}
-	if len(c.Acts) == 0 {
+	if len(t.Events) == 0 {
+		return nil, 0, nil, false
+	}
+	skipReset := 0
+	if t.Events[0].Ev != "reset" {
+		skipReset = 1 // the recorded slice starts after the reset event
+	}
+	return runs, len(t.Events) - 1 + skipReset, t.Events[len(t.Events)-1].Obs, true
+}
+
+// replayTrace re-runs a recorded session that Trace_IOStreams rejected (the
+// verdict was TLC's): it reports whether the real code still shows the
+// rejected observation.
+func replayTrace(raw json.RawMessage) hx.Outcome {
+	runs, k, lastObs, ok := casesOfTrace(raw)
+	if !ok {
+		return hx.Outcome{Skipped: true, Note: "bad trace case"}
+	}
+	nacts := 0
+	for _, r := range runs {
+		nacts += len(r.Acts)
+	}
+	if nacts == 0 {
 		return hx.Outcome{Skipped: true, Note: "no actions"}
 	}
-	obs, prog := Run(c, RunOpts{Marks: true})
+	obs, prog := RunSession(runs, RunOpts{Marks: true})
 	if obs == nil {
 		return hx.Outcome{Skipped: true, Note: "not renderable"}
 	}
-	now := EventsOf(c, obs)
-	if len(t.Events) > 0 && t.Events[0].Ev != "reset" {
-		now = now[1:] // the recorded slice starts after the reset event
-	}
+	now := SessionEvents(runs, obs)
 	// compare the observation of the rejected (last recorded) event with the new run
-	k := len(t.Events) - 1
 	if k >= len(now) {
 		return hx.OK(true)
 	}
 	nb, _ := json.Marshal(now[k]["obs"])
 	var x, y any
 	_ = json.Unmarshal(nb, &x)
-	_ = json.Unmarshal(t.Events[k].Obs, &y)
+	_ = json.Unmarshal(lastObs, &y)
 	if reflect.DeepEqual(x, y) {
-		return hx.Fail("trace/"+opName(lastIO(c))+"/rejected-observation-reproduced", "the real code still produces the observation that Trace_IOStreams rejected",
+		last := &Case{Cfg: runs[len(runs)-1].Cfg, Acts: runs[len(runs)-1].Acts}
+		return hx.Fail("trace/"+opName(lastIO(last))+"/rejected-observation-reproduced", "the real code still produces the observation that Trace_IOStreams rejected",
 			"see the replay file (info.expected)", string(nb), prog)
 	}
 	return hx.OK(true)
+}
+
+// changeClass names what differs between the configuration of a run and that of the run before it on the same
+// Interpreter (the argument class of session signatures).
+func changeClass(prev, cur Cfg) string {
+	var p []string
+	onoff := func(name string, a, b bool) {
+		if a != b {
+			if b {
+				p = append(p, name+"-on")
+			} else {
+				p = append(p, name+"-off")
+			}
+		}
+	}
+	onoff("NoExec", prev.NE, cur.NE)
+	onoff("NoFileWrites", prev.NW, cur.NW)
+	onoff("NoFileReads", prev.NR, cur.NR)
+	onoff("custom-open", prev.Custom, cur.Custom)
+	if len(p) == 0 {
+		return "same-config"
+	}
+	if len(p) > 1 {
+		return "several-changes"
+	}
+	return p[0]
+}
+
+// replaySession: several Execute calls on one Interpreter, each judged against the prediction of ITS run.
+func replaySession(raw json.RawMessage) hx.Outcome {
+	var sc SessionCase
+	if err := json.Unmarshal(raw, &sc); err != nil || len(sc.Runs) == 0 {
+		return hx.Outcome{Skipped: true, Note: "bad session case"}
+	}
+	usesProc := false
+	for _, r := range sc.Runs {
+		if len(r.Pred.Starts) > 0 {
+			usesProc = true
+		}
+	}
+	var fail *hx.Failure
+	for try := 0; try < 3; try++ {
+		fail = nil
+		obs, prog := RunSession(sc.Runs, RunOpts{Marks: true})
+		if obs == nil {
+			return hx.Outcome{Skipped: true, Note: "not renderable: " + prog}
+		}
+		for k := range sc.Runs {
+			if k >= len(obs) {
+				break
+			}
+			if obs[k].Unsynced {
+				return hx.Outcome{Skipped: true, Note: "command did not report in time"}
+			}
+			c := &Case{Fam: "session", Cfg: sc.Runs[k].Cfg, Acts: sc.Runs[k].Acts, Pred: sc.Runs[k].Pred}
+			if k > 0 {
+				c.SigClass = fmt.Sprintf("reused-interpreter-run%d/%s", k+1, changeClass(sc.Runs[k-1].Cfg, sc.Runs[k].Cfg))
+			} else {
+				c.SigClass = "reused-interpreter-run1/" + flagClass(c.Cfg)
+			}
+			if d := Compare(c, obs[k], "plain-writer"); d != nil {
+				fail = &hx.Failure{Sig: d.sig, What: fmt.Sprintf("[Execute %d of %d on one Interpreter] %s", k+1, len(sc.Runs), d.what), Expected: d.exp, Observed: d.got, Program: prog}
+				break
+			}
+			if len(obs[k].Stale) > 0 {
+				a := actFor(c, obs[k].Stale[0].Name, func(Act) bool { return true })
+				fail = &hx.Failure{Sig: "C12/" + opName(a) + "/open-through-earlier-runs-openfile/" + c.SigClass,
+					What:     fmt.Sprintf("[Execute %d of %d on one Interpreter] a file was opened through the OpenFile function of an EARLIER Execute, not through the configuration of this one", k+1, len(sc.Runs)),
+					Expected: []Open{}, Observed: obs[k].Stale, Program: prog}
+				break
+			}
+		}
+		if fail == nil || !usesProc {
+			break
+		}
+	}
+	if fail != nil {
+		return hx.Outcome{Fail: fail, Nontrivial: true}
+	}
+	last := sc.Runs[len(sc.Runs)-1]
+	lc := &Case{Cfg: last.Cfg, Acts: last.Acts}
+	return hx.OK(lastIO(lc).Op != "none")
 }
 
 // Replay is the hx.Replayer for Gen_IOStreams exports.
@@ -351,14 +522,17 @@ func Replay(raw json.RawMessage) hx.Outcome {
 	if head.Fam == "trace" {
 		return replayTrace(raw)
 	}
+	if head.Fam == "session" {
+		return replaySession(raw)
+	}
 	var c Case
 	if err := json.Unmarshal(raw, &c); err != nil || len(c.Acts) == 0 {
 		return hx.Outcome{Skipped: true, Note: "bad case"}
 	}
 	variants := []RunOpts{{Marks: true}}
-	if c.Cfg.FailAt < 0 && len(c.Pred.Starts) == 0 && len(c.Pred.Stdout.Prog) > 0 {
+	if c.Fam != "failure" && c.Cfg.FailAt < 0 && len(c.Pred.Starts) == 0 && len(c.Pred.Stdout.Prog) > 0 {
 		// no child process, something written to standard output: the run is also made with a buffered standard output
-		variants = append(variants, RunOpts{Marks: true, Bufio: true})
+		variants = append(variants, RunOpts{Marks: true, WKind: "bufio4096"})
 	}
 	for _, v := range variants {
 		obs, prog := Run(&c, v)
@@ -366,8 +540,13 @@ func Replay(raw json.RawMessage) hx.Outcome {
 			return hx.Outcome{Skipped: true, Note: "not renderable: " + prog}
 		}
 		vn := "plain-writer"
-		if v.Bufio {
+		if v.WKind != "" {
 			vn = "bufio-writer"
+		} else if c.Cfg.WKind != "" && c.Cfg.WKind != "plain" || c.Cfg.OMode == "csv" || c.Cfg.OMode == "tsv" {
+			vn = c.Cfg.WKind + "-writer" + modeClass(c.Cfg)
+		}
+		if obs.Unsynced {
+			return hx.Outcome{Skipped: true, Note: "command did not report in time"}
 		}
 		d := Compare(&c, obs, vn)
 		// Timing guard: the interpreter gives the copier of a child's output 250 ms after the child's exit
@@ -375,6 +554,9 @@ func Replay(raw json.RawMessage) hx.Outcome {
 		// processes is reported only if it shows in three runs out of three.
 		for try := 0; d != nil && len(c.Pred.Starts) > 0 && try < 2; try++ {
 			obs, prog = Run(&c, v)
+			if obs.Unsynced {
+				return hx.Outcome{Skipped: true, Note: "command did not report in time"}
+			}
 			d = Compare(&c, obs, vn)
 		}
 		if d != nil {
